@@ -4,15 +4,25 @@
 \*   disasm events: one per instruction, in order, at the instruction boundaries of the code, with the mnemonic of BclISA, the
 \*     position column (line:column of the instruction's source position by the stored line table, or "|"), the operand and the
 \*     jump target as the format defines them;
-\*   pstats: opsCreated = number of instructions, codeBytes = Len(code), constants = number of constants;
+\*   pstats: opsCreated = number of instructions, codeBytes = Len(code), constants = number of constants; tokens, localMax and
+\*     depthMax as the compiler machine BclCompiler counts them on the tokens of the L1 lexer (also for rejected programs);
 \*   trace events: exactly the executed path of BclVM (offset, mnemonic, operand depth before the instruction), one per step;
-\*   xstats: opsRead = number of trace events = steps BclVM takes; tosMax and pcFinal as the machine computes them.
+\*   xstats: opsRead = number of trace events = steps BclVM takes; tosMax, blockTosMax and pcFinal as the machine computes them.
 \* A rejected program has no listing, no trace and no xstats.
 EXTENDS BclVM, TLC, Json
 LC == INSTANCE BclLineCol
+Lx == INSTANCE BclLex
+Cm == INSTANCE BclCompiler WITH LocalsMax <- 1024, JumpMax <- 65535
+ToksOf(bs) == LET ts == Lx!RefTokens(bs) IN
+              [i \in 1..Len(ts) |-> [k |-> ts[i].k, pos |-> ts[i].pos, msg |-> ts[i].msg,
+                                     text |-> IF ts[i].k \in {"ERR", "FAIL", "EOF"} THEN <<>> ELSE SubSeq(bs, ts[i].from + 1, ts[i].pos)]]
+\* what the compiler machine counts on the source of this program (parse statistics)
+StatsOf(c) == [ood |-> c.ood, tokens |-> c.i, localMax |-> c.localMax, depthMax |-> c.depthMax]
+CompStats(h) == IF Len(h.srcb) > 700 THEN [ood |-> TRUE, tokens |-> 0, localMax |-> 0, depthMax |-> 0]     \* long sources: counters not re-derived
+                ELSE StatsOf(Cm!Compile(ToksOf(h.srcb)))
 Trace == ndJsonDeserialize("trace.ndjson")
-VARIABLES l, st, hdr, nextOff, ninstr, ntrace, xseen
-vars == <<l, st, hdr, nextOff, ninstr, ntrace, xseen>>
+VARIABLES l, st, hdr, nextOff, ninstr, ntrace, xseen, cst
+vars == <<l, st, hdr, nextOff, ninstr, ntrace, xseen, cst>>
 ProgOf(h) == LET d == DecodeProg(h.dump) IN [code |-> d.code, consts |-> [i \in 1..Len(d.consts) |-> ValOf(d.consts[i])],
                                              positions |-> d.positions, lfs |-> d.lfs]
 \* the position column of a listing line: "|" (logged as line 0) when the instruction's first byte has the position of the byte
@@ -24,7 +34,8 @@ ShownTarget(ins, off) == IF ins.op \in {"JUMP", "JFALSE"} THEN off + 3 + ins.a E
 LineOk(p, e, off) == LET ins == Instr(p.code, off) IN
                      /\ e.op = ins.op /\ <<e.pl, e.pc>> = PosCol(p, off) /\ e.arg = ShownArg(ins) /\ e.target = ShownTarget(ins, off)
 Idle == [done |-> TRUE, ood |-> FALSE]
-Init == l = 1 /\ st = Idle /\ hdr = [e |-> "none"] /\ nextOff = 0 /\ ninstr = 0 /\ ntrace = 0 /\ xseen = FALSE /\ TLCSet(1, 1)
+NoStats == [ood |-> TRUE, tokens |-> 0, localMax |-> 0, depthMax |-> 0]
+Init == l = 1 /\ st = Idle /\ hdr = [e |-> "none"] /\ nextOff = 0 /\ ninstr = 0 /\ ntrace = 0 /\ xseen = FALSE /\ cst = NoStats /\ TLCSet(1, 1)
 \* the end of one program's events: the listing covered the whole code; the trace ran the machine to its end
 Closed == IF hdr.e = "none" THEN TRUE
           ELSE IF ~hdr.accepted THEN ninstr = 0 /\ ntrace = 0 /\ ~xseen
@@ -33,18 +44,23 @@ Closed == IF hdr.e = "none" THEN TRUE
 Reset == /\ l <= Len(Trace) /\ Trace[l].e = "reset" /\ Closed
          /\ hdr' = Trace[l] /\ st' = (IF Trace[l].accepted THEN InitVM(ProgOf(Trace[l])) ELSE Idle)
          /\ nextOff' = 0 /\ ninstr' = 0 /\ ntrace' = 0 /\ xseen' = FALSE /\ l' = l + 1
-Header == /\ l <= Len(Trace) /\ Trace[l].e = "header" /\ hdr.accepted /\ ninstr = 0 /\ l' = l + 1 /\ UNCHANGED <<st, hdr, nextOff, ninstr, ntrace, xseen>>
+         /\ cst' = CompStats(Trace[l])
+Header == /\ l <= Len(Trace) /\ Trace[l].e = "header" /\ hdr.accepted /\ ninstr = 0 /\ l' = l + 1 /\ UNCHANGED <<st, hdr, nextOff, ninstr, ntrace, xseen, cst>>
 Disasm == /\ l <= Len(Trace) /\ Trace[l].e = "disasm" /\ hdr.accepted /\ ntrace = 0
           /\ Trace[l].off = nextOff /\ Fits(st.prog.code, nextOff)
           /\ LET ins == Instr(st.prog.code, nextOff) IN LineOk(st.prog, Trace[l], nextOff) /\ nextOff' = nextOff + ins.len
-          /\ ninstr' = ninstr + 1 /\ l' = l + 1 /\ UNCHANGED <<st, hdr, ntrace, xseen>>
+          /\ ninstr' = ninstr + 1 /\ l' = l + 1 /\ UNCHANGED <<st, hdr, ntrace, xseen, cst>>
 TraceEv == /\ l <= Len(Trace) /\ Trace[l].e = "trace" /\ hdr.accepted /\ nextOff = Len(st.prog.code)
            /\ (st.ood \/ (~st.done /\ Trace[l].off = st.pc /\ Trace[l].depth = Len(st.stack) /\ LineOk(st.prog, Trace[l], st.pc)))
            /\ st' = (IF st.ood THEN st ELSE StepVM(st))
-           /\ ntrace' = ntrace + 1 /\ l' = l + 1 /\ UNCHANGED <<hdr, nextOff, ninstr, xseen>>
+           /\ ntrace' = ntrace + 1 /\ l' = l + 1 /\ UNCHANGED <<hdr, nextOff, ninstr, xseen, cst>>
 StatOk(e) ==
   IF e.grp = "pstats" THEN
-     (IF ~hdr.accepted THEN TRUE
+     (IF cst.ood THEN TRUE
+      ELSE IF e.key = "tokens" THEN e.n = cst.tokens
+      ELSE IF e.key = "localMax" THEN e.n = cst.localMax
+      ELSE IF e.key = "depthMax" THEN e.n = cst.depthMax
+      ELSE IF ~hdr.accepted THEN TRUE
       ELSE CASE e.key = "opsCreated" -> e.n = ninstr
              [] e.key = "codeBytes" -> e.n = Len(st.prog.code)
              [] e.key = "constants" -> e.n = Len(st.prog.consts)
@@ -52,11 +68,12 @@ StatOk(e) ==
   ELSE /\ hdr.accepted
        /\ (st.ood \/ (st.done /\ CASE e.key = "opsRead" -> e.n = ntrace /\ e.n = st.ops
                                    [] e.key = "tosMax" -> e.n = st.tosMax
+                                   [] e.key = "blockTosMax" -> e.n = st.blockTosMax
                                    [] e.key = "pcFinal" -> e.n = (IF st.err.kind = "" THEN Len(st.prog.code) ELSE st.pc + Instr(st.prog.code, st.pc).len) \/ st.err.kind # ""
                                    [] OTHER -> TRUE))
 Stat == /\ l <= Len(Trace) /\ Trace[l].e = "stat" /\ StatOk(Trace[l])
-        /\ xseen' = (xseen \/ Trace[l].grp = "xstats") /\ l' = l + 1 /\ UNCHANGED <<st, hdr, nextOff, ninstr, ntrace>>
-Finish == l = Len(Trace) + 1 /\ Closed /\ l' = l + 1 /\ UNCHANGED <<st, hdr, nextOff, ninstr, ntrace, xseen>>
+        /\ xseen' = (xseen \/ Trace[l].grp = "xstats") /\ l' = l + 1 /\ UNCHANGED <<st, hdr, nextOff, ninstr, ntrace, cst>>
+Finish == l = Len(Trace) + 1 /\ Closed /\ l' = l + 1 /\ UNCHANGED <<st, hdr, nextOff, ninstr, ntrace, xseen, cst>>
 Next == Reset \/ Header \/ Disasm \/ TraceEv \/ Stat \/ Finish
 Spec == Init /\ [][Next]_vars
 Mark == TLCSet(1, IF l > TLCGet(1) THEN l ELSE TLCGet(1))
